@@ -1,5 +1,5 @@
 import Driver.Common
-import Logrange.Proofs.Lql
+import Logrange.Proofs.LqlStmt
 /-! Model driver for C12 (LQL print / re-parse). Requests (byte strings hex, `-` = empty):
 
 * `facts` → `ok layout=<hex> format=<0|1>`: how `DateTime.String()` renders an instant in /repo now (regenerated)
@@ -8,7 +8,8 @@ import Logrange.Proofs.Lql
 * `lex <text>` → `ok <n> (<type> <value>)*` | `err`                        (token stream after participle's unquote)
 * `stmt <text> <k> (<lit> <ok 0|1> <unixnano> <rendered>)*`                 whole statement, root `Lql`
     → `ok <canonical AST> | <printed text> | <classes,comma separated or -> | <td>` | `err | <td>`
-    `<td>`: `na` (not a TRUNCATE statement) | `same[<wf><lexable>]` | `diff:<what the direct TRUNCATE parser returns>`
+    `<td>`: the statement through the direct parser `directLql` (all statement kinds): `same:<wfLql><lexable>` (both on the normalised AST) |
+    `diff:<what the direct parser returns>`
   the table is the opaque date parser/printer (C20's territory): literal text → parse result and `time.String()` of it
 * `expr <text>` / `source <text>` → `E=<ok canon|err> D=<ok canon|err> P=<printed|-> C=<classes>`
     engine on the regenerated grammar (root `Expression` / `Source`) and the direct parser, printed text of the engine's AST
@@ -40,6 +41,12 @@ def rdOf (rows : List DateRow) (v : Int) : Bytes :=
 
 def g := Logrange.Generated.C12.grammar
 
+/-- meaning-preserving normal form (as `Props.C12.normalize`): `Format = ""` ≡ nil, `Pipes.Void` unused -/
+def normLql (l : Lql) : Lql :=
+  { l with
+    select := l.select.map (fun s => { s with format := match s.format with | some [] => none | x => x }),
+    show_ := l.show_.map (fun s => { s with pipes := s.pipes.map (fun p => { p with void := none }) }) }
+
 /-- the literals of a grammar node, in order of appearance -/
 partial def litsOf : Node → List Bytes
   | .seq ns => ns.flatMap litsOf
@@ -66,21 +73,17 @@ def step (_ : Unit) (toks : List String) : Unit × String :=
        let eng := (runEngine g "Lql" ts).bind (fun v => toLqlChecked (dpOf rows) (8 * ts.length + 50) v)
        -- TRUNCATE statements also go through the direct parser the theorems are about (+ its two decidable hypotheses)
        let td :=
-         match ts with
-         | t0 :: _ =>
-           if litMatch t0 kwTRUNCATE then
-             let d := directTruncate (dpOf rows) ts
-             match eng, d with
-             | none, none => "same"
-             | some l, some tr =>
-               if canonLql l == canonLql { truncate := some tr } then
-                 "same" ++ (if wfTruncate (rdOf rows) tr then "1" else "0")
-                   ++ (if lex (printTruncate (rdOf rows) tr) == some (toksTruncate (rdOf rows) tr) then "1" else "0")
-               else "diff:" ++ canonLql { truncate := some tr }
-             | some _, none => "diff:err"
-             | none, some tr => "diff:" ++ canonLql { truncate := some tr }
-           else "na"
-         | [] => "na"
+         match eng, directLql (dpOf rows) ts with
+         | none, none => "same"
+         | some l, some d =>
+           if canonLql l == canonLql d then
+             -- the decidable hypotheses of C12_wf / print_parse_lql on the (normalised) AST: wfLql, Lexable
+             let n := normLql d
+             "same:" ++ (if wfLql (rdOf rows) n then "1" else "0")
+               ++ (if lex (printLql (rdOf rows) d) == some (toksLql (rdOf rows) n) then "1" else "0")
+           else "diff:" ++ canonLql d
+         | some _, none => "diff:err"
+         | none, some d => "diff:" ++ canonLql d
        match eng with
        | none => ((), s!"err | {td}")
        | some l => ((), s!"ok {canonLql l} | {hex (printLql (rdOf rows) l)} | {joinC (classes (rdOf rows) l)} | {td}"))
